@@ -650,6 +650,28 @@ impl<'a> Gen<'a> {
         let shape = self.rng.below(10);
         // a body generated as "may fail" must not end up under the fold's par
         let no_par = self.cfg.strict_guard && ctx.guard;
+        // rollback shape (only where a failure leaving the fold is caught further up): every iteration
+        // catches the failure of the deeper ones, compensates with a call that takes its own iterator,
+        // and fails again
+        if ctx.guard && self.cfg.errors && self.rng.chance(1, 3) {
+            let undo = self.gen_call(Ctx { guard: false, ..ctx }, Some("f"));
+            self.iters.pop();
+            self.scope.truncate(mark);
+            // make a later iteration fail (elements of `arro` arrays carry their index), so that the failure
+            // travels back through the `next` of the earlier iterations
+            let body = if arr.shape == Shape::ArrObj {
+                let k = 1 + self.rng.below(2) as i64;
+                seq(body, Ins::Mismatch(Val::VarLens(it.clone(), Lens::Path(vec![Acc::Field("i".into())])), Val::Int(k), Box::new(Ins::Null)))
+            } else {
+                body
+            };
+            let rollback = xor(seq(body, nx), seq(undo, Ins::Fail(FailBody::Val(Val::LastError(None)))));
+            let f = Ins::Fold { iterable: Val::Var(arr.name), it, body: Box::new(rollback), last: None };
+            return match pre {
+                Some(p) => seq(p, f),
+                None => f,
+            };
+        }
         let shaped = match shape {
             0..=4 => seq(body, nx),
             5..=7 if no_par => seq(body, nx),
